@@ -359,6 +359,17 @@ def dupDeps : List String → Bool
   | [] => false
   | d :: ds => ds.contains d || dupDeps ds
 
+/-- `[f(x) for x in l]` where `f` may raise: the first exception wins -/
+def mapE (f : α → Except Err β) : List α → Except Err (List β)
+  | [] => .ok []
+  | a :: as =>
+    match f a with
+    | .error e => .error e
+    | .ok b =>
+      match mapE f as with
+      | .error e => .error e
+      | .ok bs => .ok (b :: bs)
+
 /-- `lineage.update(dep.lineage)` for every dependency in order -/
 def mergeLineage (own : Lineage) (deps : List Lineage) : Lineage := deps.foldl dictUpdate own
 
@@ -375,7 +386,7 @@ def lineage (r : Registry) (c : Config) : Nat → String → Except Err Lineage
       match pluginConfig cls c with
       | .error e => .error e
       | .ok pc =>
-        match cls.dependsOn.mapM (lineage r c n) with
+        match mapE (lineage r c n) cls.dependsOn with
         | .error e => .error e
         | .ok deps => .ok (mergeLineage (ownEntry cls pc) deps)
 
@@ -487,6 +498,19 @@ def toCache (cache : Cache K) (h : K) (d : String) (inst : PluginInst) : Cache K
   | none => some (h, [(d, inst)])
   | some (h', m) => if h' = h then some (h, dictSet m d inst) else some (h, [(d, inst)])
 
+/-- resolve the dependencies in order, threading the cache; the first exception wins (the cache
+keeps what was added before it) -/
+def foldDeps (f : String → Cache K → Except Err PluginInst × Cache K) :
+    List String → Cache K → Except Err (List Lineage) × Cache K
+  | [], cache => (.ok [], cache)
+  | x :: xs, cache =>
+    match f x cache with
+    | (.error e, cache') => (.error e, cache')
+    | (.ok i, cache') =>
+      match foldDeps f xs cache' with
+      | (.error e, cache'') => (.error e, cache'')
+      | (.ok ls, cache'') => (.ok (i.lineage :: ls), cache'')
+
 /-- `Context.__get_plugin` with the cache threaded through (the cache keeps what was added before
 an exception).  `h` is the current context hash. -/
 def getPlugin (r : Registry) (c : Config) (h : K) :
@@ -503,16 +527,7 @@ def getPlugin (r : Registry) (c : Config) (h : K) :
         match pluginConfig cls c with
         | .error e => (.error e, cache)
         | .ok pc =>
-          let rec deps : List String → Cache K → Except Err (List Lineage) × Cache K
-            | [], cache => (.ok [], cache)
-            | x :: xs, cache =>
-              match getPlugin r c h n x cache with
-              | (.error e, cache') => (.error e, cache')
-              | (.ok i, cache') =>
-                match deps xs cache' with
-                | (.error e, cache'') => (.error e, cache'')
-                | (.ok ls, cache'') => (.ok (i.lineage :: ls), cache'')
-          match deps cls.dependsOn cache with
+          match foldDeps (getPlugin r c h n) cls.dependsOn cache with
           | (.error e, cache') => (.error e, cache')
           | (.ok ls, cache') =>
             let inst : PluginInst := ⟨cls, mergeLineage (ownEntry cls pc) ls⟩
@@ -553,7 +568,7 @@ def components (rules : Rules) (H : String → K) (m : CacheMap) (cfg : Config) 
       match findItem rules H storage d inst.lineage ff ffo with
       | some it => .ok (it.prov, [])
       | none =>
-        match inst.cls.dependsOn.mapM (components rules H m cfg storage ff ffo n) with
+        match mapE (components rules H m cfg storage ff ffo n) inst.cls.dependsOn with
         | .error e => .error e
         | .ok deps =>
           if missingOption inst.cls cfg then .error .other else
